@@ -29,6 +29,9 @@ type RunConfig struct {
 	Trace     bool
 	Solver    string
 	Profile   bool
+	Params    map[string]int
+	Seed      int64
+	SampleN   int
 }
 
 func NewInterp(env *Env, cfg *RunConfig) (*Interp, error) {
@@ -38,9 +41,9 @@ func NewInterp(env *Env, cfg *RunConfig) (*Interp, error) {
 		typeKeys: map[types.Type]string{}, fnInfos: map[*ssa.Function]*fnInfo{}, methodCache: map[methodKey]*ssa.Function{},
 		implCache: map[[2]types.Type]bool{}, constCache: map[*ssa.Const]Value{}, rtStrCache: map[types.Type]string{},
 		intrCache: map[*ssa.Function]intrinsicFn{}, intrHit: map[string]int{},
-		pcIndex: map[pcEntry]int{}, rfuncs: map[*ssa.Function]*Cell{},
+		pcIndex: map[pcEntry]int{}, rfuncs: map[string]*Cell{},
 		protoByName: map[string]types.Type{}, protoByType: map[types.Type]string{},
-		unwind: cfg.Unwind, maxSteps: cfg.MaxSteps,
+		unwind: cfg.Unwind, maxSteps: cfg.MaxSteps, params: cfg.Params,
 	}
 	if cfg.Profile {
 		in.fnSteps = map[*ssa.Function]int64{}
@@ -190,6 +193,22 @@ func (in *Interp) runPath(ex *Explorer, fn *ssa.Function, it workItem, cfg *RunC
 			ex.addViolation(in, ps, "nopanic", "unrecovered panic: "+in.panicText(tpanic)+"\n"+tpanic.Stack, ps.model)
 		}()
 	}
+	if abort == nil && crash == nil && tpanic == nil && ex.wantSample(ps) {
+		func() {
+			defer func() {
+				if r := recover(); r != nil {
+					if _, ok := r.(*engineAbort); !ok {
+						panic(r)
+					}
+				}
+			}()
+			ps.ensureModel(in)
+			vs := valSample{Inputs: ps.witness(in, ps.model), Obs: ps.evalObs(in, ps.model)}
+			ex.mu.Lock()
+			ex.valSamples = append(ex.valSamples, vs)
+			ex.mu.Unlock()
+		}()
+	}
 	in.solver.Pop()
 	in.rollback()
 	in.ps = nil
@@ -206,7 +225,11 @@ func (in *Interp) runPath(ex *Explorer, fn *ssa.Function, it workItem, cfg *RunC
 		ex.sharedWrites[w]++
 	}
 	if len(ex.obsSample) < 3 && len(ps.obs) > 0 {
-		ex.obsSample = append(ex.obsSample, append([]string(nil), ps.obs...))
+		var o []string
+		for _, r := range ps.obs {
+			o = append(o, r.Name+"="+r.Val.String())
+		}
+		ex.obsSample = append(ex.obsSample, o)
 	}
 	if len(ex.samples) < 5 && abort == nil && crash == nil {
 		s := map[string]interface{}{"decisions": len(ps.trace), "forks": ps.forks, "steps": in.steps}
@@ -258,6 +281,8 @@ func Explore(env *Env, property, harness string, cfg *RunConfig) (*Explorer, *Ru
 		ex.deadline = time.Now().Add(cfg.Budget)
 	}
 	ex.maxPaths = cfg.MaxPaths
+	ex.sampleN = cfg.SampleN
+	ex.seed = cfg.Seed
 	stats := &RunStats{FnSteps: map[string]int64{}, Intrinsics: map[string]int{}}
 	var wg sync.WaitGroup
 	var firstErr error
@@ -356,4 +381,22 @@ func trimStack(s string) string {
 		lines = lines[:40]
 	}
 	return strings.Join(lines, "\n")
+}
+
+// wantSample decides whether a completed path contributes a translator-validation sample.
+func (ex *Explorer) wantSample(ps *pathState) bool {
+	ex.mu.Lock()
+	defer ex.mu.Unlock()
+	if len(ex.valSamples) >= ex.sampleN {
+		return false
+	}
+	if len(ex.valSamples) < ex.sampleN/2 {
+		return true
+	}
+	// pseudo-random thinning driven by the seed and the path's decisions
+	h := uint64(ex.seed)*0x9e3779b97f4a7c15 + 12345
+	for _, d := range ps.trace {
+		h = (h ^ uint64(d)) * 0x100000001b3
+	}
+	return h%4 == 0
 }
